@@ -183,7 +183,8 @@ MapSigns   == {"dict", "Mapping", "MutableMapping", "defaultdict", "OrderedDict"
 
 \* configuration facts that matter to the verdict
 \*   rnd   : is_random          tower : is_pep484_tower       ov : hint_overrides {A: B} active
-Conf(rnd, tower, ov) == [rnd |-> rnd, tower |-> tower, ov |-> ov]
+\*   ov3   : hint_overrides {A: A | int | str} active (an override whose target is a union of three members)
+Conf(rnd, tower, ov) == [rnd |-> rnd, tower |-> tower, ov |-> ov, ov3 |-> FALSE]
 Conf0 == Conf(TRUE, FALSE, FALSE)
 
 (* -------- documented rewrites of the configuration (C18), applied at every depth ---- *)
@@ -193,6 +194,7 @@ Rewrite(h, conf) ==
   ELSE IF h.k = "cls" /\ conf.tower /\ h.s = "complex"
        THEN HUnion(<<HCls("complex"), HCls("float"), HCls("int")>>)
   ELSE IF h.k = "cls" /\ conf.ov /\ h.s = "A" THEN HCls("B")
+  ELSE IF h.k = "cls" /\ conf.ov3 /\ h.s = "A" THEN HUnion(<<HCls("A"), HCls("int"), HCls("str")>>)
   ELSE [h EXCEPT !.a = [i \in DOMAIN h.a |-> Rewrite(h.a[i], conf)]]
 
 (* ----------------------------------------------------- the published meaning *)
